@@ -116,7 +116,9 @@ func (s *Session) wait() {
 			if w += time.Duration(d) * time.Millisecond; w < 0 {
 				w = w * -1
 			}
-			if w == 0 {
+			// NOTE: A wrap of the addition above can land on the minimum
+			//       value, which is still negative after the flip.
+			if w <= 0 {
 				w = s.sleep
 			}
 		}
